@@ -177,7 +177,9 @@ def check_proofs(prop):
         # a property whose statements are spread over several files: Prop_Cxx.v + Prop_Cxx_*.v
         os.environ['_VERIF_SUB'] = '1'
         try:
-            parts = [check_proofs(prop)] + [check_proofs(os.path.basename(f)[5:-2]) for f in extra]
+            from concurrent.futures import ThreadPoolExecutor
+            with ThreadPoolExecutor(max_workers=6) as ex:       # independent files: one coqc each, side by side
+                parts = list(ex.map(check_proofs, [prop] + [os.path.basename(f)[5:-2] for f in extra]))
         finally:
             del os.environ['_VERIF_SUB']
         tot = dict(parts[0])
